@@ -19,10 +19,10 @@ pub fn complete_obs(cmd: &Command, name: &[u8], words: &Value, i: usize) -> Valu
 }
 /// the same call on a Command value that has already parsed the words before the cursor (the parser builds lazily:
 /// levels it walked through are built, their children are not)
-pub fn complete_obs_reused(cmd: &Command, name: &[u8], words: &Value, i: usize) -> Value {
+pub fn complete_obs_reused(cmd: &Command, name: &[u8], words: &Value, i: usize, upto: usize) -> Value {
     let mut c = cmd.clone();
     let mut argv: Vec<OsString> = if cmd.is_no_binary_name_set() { vec![] } else { vec![os(name)] };
-    for w in words.as_array().unwrap().iter().take(i.saturating_sub(1)) {
+    for w in words.as_array().unwrap().iter().take(upto.min(i.saturating_sub(1))) {
         argv.push(os(&bytes_of(w)));
     }
     let _ = guarded(std::panic::AssertUnwindSafe(|| { let _ = c.try_get_matches_from_mut(argv); }));
@@ -83,12 +83,16 @@ pub fn complete_replay(defs: &str, input: &str, out: &str, div: &str) {
         }
         let line = json!({"d": di + 1, "words": r["words"], "i": i, "reused": false, "obs": {"panicked": obs["panicked"], "err": obs["err"], "cands": obs["cands"]}});
         // "any command": also one that has already been used for a parse of the preceding words
-        let obs2 = complete_obs_reused(cmd, &bytes_of(&d.recs[di]["cmd"]["name"]), &r["words"], i);
+        // (after a parse of all the preceding words, and after a parse that stopped at the first of them)
+        for upto in [usize::MAX, 1] {
+        if upto == 1 && i <= 2 { continue; }
+        let obs2 = complete_obs_reused(cmd, &bytes_of(&d.recs[di]["cmd"]["name"]), &r["words"], i, upto);
         if obs2["panicked"] != obs["panicked"] || obs2["cands"] != obs["cands"] {
             rep.count("reused_command_differs", 1);
             rep.mismatch(json!({"label": d.recs[di]["label"], "reused": true, "i": i, "obs": obs2, "fresh": obs["cands"],
                                 "words": r["words"].as_array().unwrap().iter().map(|w| String::from_utf8_lossy(&bytes_of(w)).into_owned()).collect::<Vec<_>>()}));
             dw.put(&json!({"d": di + 1, "words": r["words"], "i": i, "reused": true, "obs": {"panicked": obs2["panicked"], "err": obs2["err"], "cands": obs2["cands"]}}));
+        }
         }
         if !ok {
             rep.mismatch(json!({"label": d.recs[di]["label"], "words": r["words"].as_array().unwrap().iter().map(|w| String::from_utf8_lossy(&bytes_of(w)).into_owned()).collect::<Vec<_>>(), "i": i, "obs": obs, "must": r["must"]}));
